@@ -163,6 +163,18 @@ Theorem C04_replace_is_inplace :
 Proof. exact (conj replace_is_inplace (conj replace_ptr_is_inplace (conj replace_cstr_is_inplace replace5_is_inplace))). Qed.
 Print Assumptions C04_replace_is_inplace.
 
+(* the iterator-based overloads on a valid range [first, last) of the string (0 <= first <= last <= size(); anything else
+   is undefined behaviour, the model says UB): the in-place replace of last - first characters at first *)
+Theorem C04_replace_iterators_inplace :
+  (forall s first last src, inv s -> 0 <= first <= last -> last <= get_size s ->
+     exists s', replace_it_m s first last src = Ok s' /\ (inv s' /\ cap s' = cap s /\ ckind s' = ckind s) /\
+       Some (contents s') = s_replace_inplace (contents s) first (last - first) src) /\
+  (forall s first last count2 ch, inv s -> 0 <= first <= last -> last <= get_size s -> 0 <= count2 ->
+     exists s', replace_it_fill_m s first last count2 ch = Ok s' /\ (inv s' /\ cap s' = cap s /\ ckind s' = ckind s) /\
+       Some (contents s') = s_replace_inplace (contents s) first (last - first) (rep count2 ch)).
+Proof. exact (conj replace_it_is_inplace replace_it_fill_is_inplace). Qed.
+Print Assumptions C04_replace_iterators_inplace.
+
 (* the in-place replace IS std::basic_string::replace exactly when the replacement is as long as the replaced range
    min(count, size() - pos) — the complement is the defect region of KF-C04-replace-inplace *)
 Theorem C04_replace_std_iff_same_length : forall l pos count x, 0 <= pos <= slen l -> 0 <= count ->
@@ -238,6 +250,6 @@ Example C04_replace_nonvacuous :
 Proof.
   eexists. split; [vm_compute; reflexivity|]. split.
   - unfold inv, cap_ok. vm_compute. repeat split; discriminate.
-  - split; [vm_compute; reflexivity|]. split; [eexists; split; vm_compute; reflexivity|].
-    split; vm_compute; reflexivity.
+  - split; [vm_compute; reflexivity|]. split; [eexists; split; [vm_compute; reflexivity|vm_compute; reflexivity]|].
+    split; [vm_compute; reflexivity|vm_compute; reflexivity].
 Qed.
